@@ -115,19 +115,105 @@ def module_relpath(dotted):
 
 
 def find_function(target, overrides=None):
-    """target = 'rel/path.py::Class.method' or 'rel/path.py::func'.
+    """target = 'rel/path.py::Class.method' or 'rel/path.py::func', optionally followed by
+    '@loopbody(name)' (a mechanically extracted fragment, see make_fragment).
     Returns (ModuleSrc, FunctionDef, class name or None)."""
     relpath, qual = target.split('::')
+    frag = None
+    if '@' in qual:
+        qual, frag = qual.split('@', 1)
     mod = load(relpath, (overrides or {}).get(relpath))
     if '.' in qual:
         cname, fname = qual.split('.')
         meths = mod.class_methods(cname)
         if fname not in meths:
             raise KeyError('%s: no method %s' % (target, fname))
-        return mod, meths[fname], cname
-    if qual not in mod.funcs:
-        raise KeyError('%s: no function %s' % (target, qual))
-    return mod, mod.funcs[qual], None
+        fn = meths[fname]
+    else:
+        cname = None
+        if qual not in mod.funcs:
+            raise KeyError('%s: no function %s' % (target, qual))
+        fn = mod.funcs[qual]
+    if frag:
+        fn = make_fragment(mod, fn, frag)
+    return mod, fn, cname
+
+
+import builtins as _builtins
+
+
+def make_fragment(mod, fn, frag):
+    """Mechanical extraction of a loop body out of a long method, done on every run from the current source.
+
+    '@loopbody(v)' selects the unique `for` statement inside `fn` whose direct body assigns the plain name `v`
+    and wraps that body, unchanged, as
+
+        def <fn>__loopbody_v(<every name the body reads that is neither a builtin nor a module-level name>):
+            <the body statements, verbatim>
+            return locals()
+
+    What the extraction drops: everything of `fn` outside that loop body (so the contract's preconditions
+    stand for the state the enclosing code establishes) and the iteration itself (one arbitrary iteration is
+    verified; loop-carried names are visible through the returned locals())."""
+    kind, _, arg = frag.partition('(')
+    arg = arg.rstrip(')')
+    if kind != 'loopbody':
+        raise KeyError('unknown fragment selector %s' % frag)
+    hits = []
+    for node in ast.walk(fn):
+        if isinstance(node, ast.For):
+            for st in node.body:
+                if isinstance(st, ast.Assign) and any(isinstance(t, ast.Name) and t.id == arg for t in st.targets):
+                    hits.append(node)
+                    break
+    if len(hits) != 1:
+        raise KeyError('fragment %s: %d matching loops in %s' % (frag, len(hits), fn.name))
+    loop = hits[0]
+    loaded = []
+
+    def loads(node, defined):
+        for n in ast.walk(node):
+            if isinstance(n, ast.Name) and isinstance(n.ctx, ast.Load) and n.id not in defined and n.id not in loaded:
+                loaded.append(n.id)
+
+    def scan(stmts, defined):
+        # names assigned by a plain `x = ...` earlier in the same block are locals of the fragment, not inputs
+        for st in stmts:
+            if isinstance(st, ast.If):
+                loads(st.test, defined)
+                scan(st.body, set(defined))
+                scan(st.orelse, set(defined))
+            elif isinstance(st, ast.Assign):
+                loads(st.value, defined)
+                for t in st.targets:
+                    if isinstance(t, ast.Name):
+                        defined.add(t.id)
+                    else:
+                        loads(t, defined)
+            else:
+                loads(st, defined)
+    scan(loop.body, set())
+    if isinstance(loop.target, ast.Name) and loop.target.id not in loaded:
+        loaded.append(loop.target.id)
+    modnames = set(mod.funcs) | set(mod.classes) | set(mod.assigns) | set(mod.imports)
+    params = [n for n in loaded if not hasattr(_builtins, n) and n not in modnames]
+    ret = ast.Return(value=ast.Call(func=ast.Name(id='locals', ctx=ast.Load()), args=[], keywords=[]))
+    wrapper = ast.FunctionDef(name='%s__loopbody_%s' % (fn.name, arg),
+                              args=ast.arguments(posonlyargs=[], args=[ast.arg(arg=p) for p in params], kwonlyargs=[],
+                                                 kw_defaults=[], defaults=[]),
+                              body=list(loop.body) + [ret], decorator_list=[])
+    ast.fix_missing_locations(wrapper)
+    wrapper._frag_src = '\n'.join(mod.segment(st) or '' for st in loop.body)
+    wrapper._frag_params = params
+    return wrapper
+
+
+def fragment_source(target, overrides=None):
+    """Source text of the synthesized wrapper (for native replay: exec'd in the real module's namespace)."""
+    mod, fn, cname = find_function(target, overrides)
+    import textwrap
+    body = '\n'.join(textwrap.dedent(mod.segment(st)) if False else ast.unparse(st) for st in fn.body)
+    return 'def %s(%s):\n%s\n' % (fn.name, ', '.join(fn._frag_params), textwrap.indent(body, '    ')), fn.name
 
 
 def resolve_method(mod, cname, mname, overrides=None, _depth=0):
@@ -154,5 +240,5 @@ def resolve_method(mod, cname, mname, overrides=None, _depth=0):
 
 
 def source_hash(mod, node):
-    seg = mod.segment(node) or ''
+    seg = getattr(node, '_frag_src', None) or mod.segment(node) or ''
     return hashlib.sha256(seg.encode()).hexdigest()
